@@ -96,6 +96,14 @@ def build(work: str, mut) -> str:
                 os.remove(junk)
             assert subprocess.run(f"git -C /repo archive {mut['base_rev']} src | tar -x -C {work}", shell=True).returncode == 0
             p = subprocess.run(["patch", "-p1", "-s", "-F0", "-d", work, "-i", mut["patch"]], capture_output=True)
+            if p.returncode != 0:
+                # the recorded revision took the patch only with fuzz: look for one that takes it exactly
+                rev2 = newest_rev_where_applies(mut["patch"])
+                if rev2:
+                    shutil.rmtree(os.path.join(work, "src"))
+                    assert subprocess.run(f"git -C /repo archive {rev2} src | tar -x -C {work}", shell=True).returncode == 0
+                    p = subprocess.run(["patch", "-p1", "-s", "-F0", "-d", work, "-i", mut["patch"]], capture_output=True)
+                    mut["base_rev"] = rev2
             if p.returncode == 0:
                 mut["built_on"] = mut["base_rev"]
         if p.returncode != 0:
